@@ -53,7 +53,7 @@ func convSource(j int, elems []string) *schema.StreamReader[int] {
 		case "skip":
 			return 0, schema.ErrNoValue
 		case "boom":
-			panic("boom:" + strconv.Itoa(fid(j, k)))
+			boom(fid(j, k))
 		}
 		return fid(j, k), nil
 	})
@@ -119,10 +119,8 @@ func classifyItem(err error) string {
 		return "c:" + strconv.Itoa(c0.code)
 	}
 	if pi, ok := compose.VerifC13PanicInfo(err); ok {
-		if s, ok := pi.(string); ok {
-			if m := reBoom.FindStringSubmatch(s); m != nil {
-				return "p:" + m[1]
-			}
+		if n := payloadOf(pi); n >= 0 {
+			return "p:" + strconv.Itoa(n)
 		}
 		return "?:panic " + fmt.Sprint(pi)
 	}
@@ -297,8 +295,7 @@ func fwdCaseCoq(c *Case, o *Obs) string {
 		obs = lib.CoqApp("FOut", lib.CoqList(out))
 	case "panic":
 		pay := uint64(999999)
-		if m := reBoom.FindStringSubmatch(o.Info); m != nil {
-			n, _ := strconv.Atoi(m[1])
+		if n := payloadOf(o.Info); n >= 0 {
 			pay = uint64(n)
 		}
 		obs = lib.CoqApp("FPanic", lib.CoqList(out), lib.CoqN(pay))
